@@ -292,6 +292,40 @@ func c13Case(c *Ctx, id, stack string, items []string) {
 		if !failed && deepSnap(mem) != snap0 {
 			fail("oracle:sweep-changed-source", "the oracle's own reads changed the source")
 		}
+		// at the end of the case only (closing such a handle stamps the directory): a directory
+		// opened with a WRITE access mode (MemMapFs allows it) lists no hidden file either
+		if !failed && !dead && len(hows) > 1 {
+			c13Safe(func() {
+				for _, p := range srcPaths {
+					if e := after[env.memPath(p)]; !e.dir {
+						continue
+					}
+					for _, fl := range []int{os.O_RDWR, os.O_WRONLY} {
+						fh, err := through.OpenFile(p, fl, 0)
+						if err != nil {
+							continue
+						}
+						c.Count("oracle.write-mode-dir-listing")
+						var names []string
+						if fl == os.O_RDWR {
+							names, _ = fh.Readdirnames(-1)
+						} else {
+							fis, _ := fh.Readdir(-1)
+							for _, x := range fis {
+								names = append(names, x.Name())
+							}
+						}
+						fh.Close()
+						for _, n := range names {
+							if ce, ok := after[path.Join(env.memPath(p), n)]; ok && !ce.dir && !env.re.MatchString(n) {
+								fail("hidden-reported:sweep-OpenFile-write-mode+listing", "at the end: OpenFile(%s, %#x) + listing through the filter shows %q (listing %q)", p, fl, n, names)
+								return
+							}
+						}
+					}
+				}
+			})
+		}
 	}
 	for i, it := range items {
 		c.Case("%s", it)
